@@ -472,6 +472,11 @@ def gen_universe(rng: random.Random, saturated: bool = False) -> World:
                   tuple(rng.sample(["p", "q", "r"], rng.randint(1, 2))))
         especs.append(sp)
         w.enum(sp[0], list(sp[2]), schema=sp[1])
+    # columns typed by an Enum object; whether that enum is in any database is nobody's business but the caller's
+    if rng.random() < 0.4:
+        es = w.handles("enum")
+        for c in rng.sample(allcols, min(len(allcols), rng.randint(1, 3))):
+            w.m[c]["type"] = ["enum", rng.choice(es)]
     # references
     rspecs = []
     for _ in range(rng.randint(3, 8)):
